@@ -777,3 +777,20 @@ Proof.
   - apply kw_set_others.
   - apply kw_del_others.
 Qed.
+
+(* ------------------------------------------------------------------ get_relto *)
+(* strings that pass through a files() call are relative to the build file of that call, whatever
+   the directory of the target is ... *)
+Theorem relto_through_call pre f rest :
+  forallb (fun n => negb (pn_func n)) pre = true -> pn_func f = true ->
+  relto [pre ++ f :: rest] = Some (pn_dir f).
+Proof.
+  intros Hp Hf. unfold relto. induction pre as [|n pre IH]; cbn [app find].
+  - now rewrite Hf.
+  - cbn in Hp. apply andb_true_iff in Hp. destruct Hp as [Hn Hp]. apply negb_true_iff in Hn. rewrite Hn. apply IH, Hp.
+Qed.
+(* ... plain strings (no call before the target on the path) are relative to the target's build file *)
+Corollary relto_plain pre target :
+  forallb (fun n => negb (pn_func n)) pre = true -> pn_func target = true ->
+  relto [pre ++ [target]] = Some (pn_dir target).
+Proof. intros. now apply relto_through_call. Qed.
